@@ -226,6 +226,14 @@ impl FileSystem for FaultFs {
         self.inner.is_dir(p)
     }
     fn lock_file(&self, p: &Path) -> io::Result<FileLock> {
-        self.inner.lock_file(p)
+        let r = self.inner.lock_file(p);
+        if r.is_ok() {
+            // not a numbered call (never faulted): only reported to the observer, after the fact
+            let obs = self.ctl.observer.lock().unwrap().clone();
+            if let Some(o) = obs {
+                o("locked");
+            }
+        }
+        r
     }
 }
